@@ -15,6 +15,7 @@ import asn1tools
 from asn1tools.source import c as c_source
 
 NAMESPACE = 'ns'
+MAX_VALUE_BYTES = 140000
 ACTIVE = set()      # ids of the open findings that still reproduce (set by the check)
 
 
@@ -110,6 +111,9 @@ def prepare(ctx, uid, spec, codec, n_values, n_fuzz, rng, fixed_cases=None):
                         todo.append((m, n, v))
     p.py_encode_failures = []
     for m, n, v in todo:
+        if T.value_weight(v) > MAX_VALUE_BYTES:
+            ctx.count('value-skipped:too-large-for-the-python-encoder')
+            continue
         r = lib.attempt(compiled.encode, n, v)
         if r[0] != 'ok':
             p.py_encode_failures.append((n, v, r[1:]))
@@ -144,7 +148,10 @@ def prepare(ctx, uid, spec, codec, n_values, n_fuzz, rng, fixed_cases=None):
             targets = T.over_targets(spec, spec.index[(m, n)])
             for tg in targets[:4]:
                 for _ in range(2):
-                    r = lib.attempt(compiled.encode, n, T.gen_over_value(spec, spec.index[(m, n)], rng, tg))
+                    ov = T.gen_over_value(spec, spec.index[(m, n)], rng, tg)
+                    if T.value_weight(ov) > MAX_VALUE_BYTES:
+                        continue
+                    r = lib.attempt(compiled.encode, n, ov)
                     if r[0] == 'ok' and len(r[1]) < 100000:
                         fuzz.append((ti, bytes(r[1])))
     p.fuzz = fuzz
